@@ -220,6 +220,16 @@ func hopLikeBase(base string) bool {
 	return len(s) >= 2 && hopLike(s[1])
 }
 
+// sendKnownClass is the structural class of C42's recorded send-side finding: a NATIVE base
+// denomination with at least three segments whose second segment is hop-like. When such a denom is
+// sent, ICS-20 escrows the native denom (the msg server never parses a bank denom that does not
+// start with "ibc/"), while ParseDenomFromSendPacket parses the packet denom with
+// ExtractDenomFromPath, takes (segment 0, segment 1) for a hop and charges ibc/{hash}. Two-segment
+// names are outside the class: the parser leaves a two-segment string alone.
+func sendKnownClass(base string) bool {
+	return hopLikeBase(base) && len(strings.Split(base, "/")) >= 3
+}
+
 // hasIdentifierLikeSegment: some segment (at any index) is hop-like.
 func hasIdentifierLikeSegment(base string) bool {
 	for _, s := range strings.Split(base, "/") {
